@@ -19,6 +19,13 @@ NH = 28      # history slots dumped per variant
 
 def make(rng, sid):
     p = gen_tree.shape_params(rng, "readdirs")
+    sep = rng.random() < 0.15
+    if sep:
+        # directory names that contain the separators of the option syntax (`:` between directories, `;` between options):
+        # the two-directory entry points take their arguments as they are
+        u0, e0 = rng.choice([(b"/opt/vendor:2.0", b"/etc"), (b"/usr/etc", b"/etc;site"), (b"/opt/a:b", b"/srv/c:d")])
+        p["dirs"] = [u0, e0]
+        p["call"] = ("RD", u0, e0, p["call"][3], p["call"][4])
     if rng.random() < 0.3:
         p["global_confdirs"] = rng.choice([[b".d"], [b"/conf.d", b".d"], [p["dsfx"] + b".d", b".x.d"]])
         p["postfixes"] = p["global_confdirs"]
@@ -39,13 +46,21 @@ def make(rng, sid):
     s.add("RAW", 0)
     s.add("RD", 1, *(args + ["cb:all"]))
     s.add("RAW", 1)
-    pd = b"PARSING_DIRS=" + (u or b"") + b":" + (e or b"")
-    s.add("NEW", 2, "opt", h(pd))
-    s.add("RC", 2, h(b"ignored"), h(b"/ignored"), h(name), h(sfx), h(b"="), h(b"#"))
-    s.add("RAW", 2)
-    s.add("NEW", 3, "opt", h(pd))
-    s.add("RC", 3, h(b"ignored"), h(b"/ignored"), h(name), h(sfx), h(b"="), h(b"#"), "cb:all")
-    s.add("RAW", 3)
+    if sep:
+        # (such names cannot be written into a PARSING_DIRS list: the comparison with that route is replaced by a second pair of calls)
+        s.meta["separators"] = True
+        s.add("RD", 2, *args)
+        s.add("RAW", 2)
+        s.add("RD", 3, *(args + ["cb:all"]))
+        s.add("RAW", 3)
+    else:
+        pd = b"PARSING_DIRS=" + (u or b"") + b":" + (e or b"")
+        s.add("NEW", 2, "opt", h(pd))
+        s.add("RC", 2, h(b"ignored"), h(b"/ignored"), h(name), h(sfx), h(b"="), h(b"#"))
+        s.add("RAW", 2)
+        s.add("NEW", 3, "opt", h(pd))
+        s.add("RC", 3, h(b"ignored"), h(b"/ignored"), h(name), h(sfx), h(b"="), h(b"#"), "cb:all")
+        s.add("RAW", 3)
     s.add("RH", 4, *args)
     for i in range(4, 4 + NH):
         s.add("RAW", i)
